@@ -76,7 +76,7 @@ CLAIMS = {
         "The model's event sequence is compared exactly with the real loop (through _run_strong_sim/_run_weak_sim, stubs for the "
         "gate kernels) on random circuits; real-numerics search compares results with/without barriers and each sampled column "
         "with Qiskit's Statevector of the prefix. PARTIAL: Qiskit's DAG API is modelled as an instruction list with the "
-        "front-layer rule; labelled barriers are taken full-width. Extended: layer-sampling history model (run_layers) with theorem and history trace; partial and trailing labelled barriers. Weak-mode numerics: the sampling distribution of the state handed to measure_shots (every outcome string forced once) vs the exact amplitudes, for circuits ending in a two-qubit gate away from the left edge, with and without barriers.",
+        "front-layer rule; labelled barriers are taken full-width. Extended: layer-sampling history model (run_layers) with theorem and history trace; partial and trailing labelled barriers. Weak-mode numerics: the sampling distribution of the state handed to measure_shots (every outcome string forced once) vs the exact amplitudes, for circuits ending in a two-qubit gate away from the left edge, with and without barriers. Gauge word of the whole noise-free trajectory (traj_word) with theorem that every gate and every read (observables, measure_shots) finds the centre at site 0 in all three modes, tied to the recorded normalize/evaluate/measure calls of the real loop.",
         COMMON_NOTE + "Modelled, not verified: DAGCircuit.front_layer/remove_op_node.",
         "DESIGN.md §3 C16"),
     "C20": (
@@ -88,7 +88,7 @@ CLAIMS = {
         "_run_weak_sim on enumerated and random histories, serial and parallel (deterministic executor). The search runs real "
         "simulations: reused vs fresh noise-free results, deep equality of circuit/Hamiltonian/noise model before and after, one "
         "OS-seeded Generator per trajectory with distinct states. PARTIAL: statistical independence of separately OS-seeded "
-        "generators (also across forked workers) is a property of NumPy/the OS and is not modelled. Extended: layer-sampling histories (columns depend on the circuit of the run only). Real pools of four workers: no trajectory repeats another of the same or previous run; generator-per-trajectory is a correspondence, not a demand. One AnalogSimParams object served by TJM, MCWF and Lindblad in any order (run_analog model + trace). State-ray check with an asymmetric initial state. Noise models with switched-off channels next to live ones and with drawn strengths, the Lindblad solver, scheduled jumps and long-range factors in the before/after snapshot.",
+        "generators (also across forked workers) is a property of NumPy/the OS and is not modelled. Extended: layer-sampling histories (columns depend on the circuit of the run only). Real pools of four workers: no trajectory repeats another of the same or previous run; generator-per-trajectory is a correspondence, not a demand. One AnalogSimParams object served by TJM, MCWF and Lindblad in any order (run_analog model + trace). State-ray check with an asymmetric initial state. Noise models with switched-off channels next to live ones and with drawn strengths, the Lindblad solver, scheduled jumps and long-range factors in the before/after snapshot. Aliasing model (ObjStore): theorem that writes addressed to objects the run allocated leave every caller object unchanged; tie: NoiseModel.sample() shares nothing with its source, operation sequences on the real sample vs run_on_sample, run() hands a sample to every front-end.",
         COMMON_NOTE,
         "DESIGN.md §3 C20"),
     "C18": (
